@@ -6,7 +6,7 @@ let show (o : n list option) : string =
 
 let handle (f : string list) : string =
   match f with
-  | ["linkScan"; s; t] -> show (linkscan_wire (bytes_of_hex s) (bytes_of_hex t))
+  | ["linkScan"; s; t] | ["linkScanL"; s; t] -> show (linkscan_wire (bytes_of_hex s) (bytes_of_hex t))
   | ["linkCands"; s] -> show (linkcands_wire (bytes_of_hex s))
   | _ -> "driver-error:unknown-command"
 
